@@ -227,6 +227,15 @@ pub fn make_invalid(f: &mut Font, tr: &mut Track, kinds: u32) {
         let g = Guideline::new(Line::Angle { x: 0.0, y: 0.0, degrees: 400.0 }, None, None, None);
         f.font_info.guidelines.get_or_insert_with(Default::default).push(g);
     }
+    // angles a range test written with two comparisons would let through / boundary just below zero
+    if kinds & 128 != 0 {
+        let g = Guideline::new(Line::Angle { x: 0.0, y: 0.0, degrees: f64::NAN }, None, None, None);
+        f.font_info.guidelines.get_or_insert_with(Default::default).push(g);
+    }
+    if kinds & 256 != 0 {
+        let g = Guideline::new(Line::Angle { x: 0.0, y: 0.0, degrees: -1e-9 }, None, None, None);
+        f.font_info.guidelines.get_or_insert_with(Default::default).push(g);
+    }
 }
 
 /// write a UFO at `dir` (by norad itself from an API font) with data and images files added by hand
